@@ -33,6 +33,7 @@ import json, math, os, shutil, struct
 from harness.gen import c08_inst as G
 
 REL = 1e-9
+IMPL_SMALL = 2e4        # below this every instance goes through the implementation-structured model, above every 12th
 IMPL_BUDGET = 6e5       # size bound (operations) for the implementation-structured model in Float
 IMPL_BUDGET_RAT = 6e4   # ... over exact rationals
 EXACT_REL = 1e-12      # implementation floats vs the exact rational posterior (c08.fbrat): relative, + 1e-300 absolute
@@ -356,7 +357,9 @@ class Batch:
                 reqs.append(model_req(case, "c08.fb", scal)); back.append((n, "fb-scaled"))
             if want_brute:
                 reqs.append(model_req(case, "c08.brute")); back.append((n, "brute"))
-            if G.impl_cost(case) <= IMPL_BUDGET:
+            ic = G.impl_cost(case)
+            self.n_seen = getattr(self, "n_seen", 0) + 1
+            if ic <= IMPL_SMALL or (ic <= IMPL_BUDGET and self.n_seen % 12 == 0):
                 # the implementation-structured model (Gray walk, incremental cost computers, scatter-adds, the code's own
                 # scaling sums, check-pointing): with the code's spacing k = floor(sqrt(n)) and with another spacing
                 reqs.append(model_req(case, "c08.impl")); back.append((n, "impl"))
@@ -377,9 +380,10 @@ class Batch:
                 if dev > REL:
                     ctx.disagree("c08." + kind, case, impl, lik)
                 if kind == "impl":
-                    # which columns the code re-computes: exactly those whose index is not a multiple of floor(sqrt(n))
+                    # where the forward pass finds no stored column and re-computes a whole block (down from the next stored
+                    # one): at the first column after every multiple of k = floor(sqrt(n))
                     nc = case["n_cols"]; kk = math.isqrt(nc)
-                    want = [bool(kk > 1 and c + 1 < nc and c % kk != 0) for c in range(nc)]
+                    want = [bool(kk > 1 and c + 1 < nc and c % kk == 1) for c in range(nc)]
                     if ans.get("recomputed") != want:
                         ctx.disagree("c08.impl/recomputed-columns", case, want, ans.get("recomputed"))
                 continue
@@ -505,7 +509,7 @@ class ExactBatch:
         # must be the IDENTICAL rationals (impl_posterior_eq_model, ckpt_transparent)
         ireqs, iback = [], []
         for n, (case, impl, brute) in enumerate(self.items):
-            if G.impl_cost(case) <= IMPL_BUDGET_RAT:
+            if G.impl_cost(case) <= IMPL_BUDGET_RAT and len(ireqs) < 16:
                 base = dict(reqs[n], op="c08.implrat"); base.pop("brute", None)
                 ireqs.append(base); iback.append((n, None))
                 k2 = 1 + (n * 5 + case["n_cols"]) % max(1, case["n_cols"])
